@@ -179,8 +179,11 @@ pub fn run_case(lines: &[Vec<String>], o: &mut Out) {
                         o.obs(2, &rows, &[]);
                         let rows: Vec<Vec<i64>> = h.get_all_edges().iter().map(|e| edge_row(e)).collect();
                         o.obs(1003, &rows, &[]);
-                        // model side: the hypotheses of the Coq theorems hold for this graph
-                        o.obs(46, &[vec![1, 1, 1]], &[]);
+                        // model side: the hypotheses of the Coq theorems hold for this graph.  The first flag
+                        // (weighted reading: well-formed adjacency AND non-negative costs) is 0 exactly when a
+                        // stored weight is negative - never generated, only the corpus witness of F22
+                        let nonneg = h.get_all_edges().iter().all(|e| !(e.weight < 0.0));
+                        o.obs(46, &[vec![nonneg as i64, 1, 1]], &[]);
                         g = Some(Arc::new(h));
                     }
                     _ => return,
